@@ -179,6 +179,24 @@ pub fn extreme_exponent_literal() -> impl Strategy<Value = String> {
     })
 }
 
+/// An ordinary value written with a huge exponent that the mantissa compensates:
+/// `0.{k zeros}d e(k+n)` and `d{k zeros} e-k`, k up to 70000 (beyond the 32000 that
+/// 488.2 gives as the exponent limit of devices, and beyond 16-bit counts).
+pub fn compensated_exponent_literal() -> impl Strategy<Value = String> {
+    let ks = vec![1usize, 2, 19, 20, 39, 40, 308, 309, 310, 324, 325, 400, 1000, 4095, 4096, 31_999, 32_000, 32_001, 32_767, 32_768, 40_000, 65_535, 65_536, 70_000];
+    (any::<bool>(), "[1-9][0-9]{0,4}", proptest::sample::select(ks), any::<bool>(), any::<bool>(), 0usize..3).prop_map(|(neg, d, k, small_side, upper, extra)| {
+        let e = if upper { 'E' } else { 'e' };
+        let sign = if neg { "-" } else { "" };
+        if small_side {
+            // 0.000...0d x 10^(k + extra): the value is d x 10^(extra - len(d))
+            format!("{sign}0.{}{d}{e}{}", "0".repeat(k), k + extra)
+        } else {
+            // d000...0 x 10^-k
+            format!("{sign}{d}{}{e}-{}", "0".repeat(k), k)
+        }
+    })
+}
+
 /// Spellings of zero.
 pub fn zero_literal() -> impl Strategy<Value = String> {
     (any::<bool>(), prop_oneof![Just("0"), Just("00"), Just("000000")], 0u32..4, style_strategy(30)).prop_map(|(neg, digits, scale, st)| render(neg, digits, scale, &st))
